@@ -474,9 +474,28 @@ def n3(e: Engine, rep: Report, K: Kinds):
         flow = KindFlow(K, g)
         where = '%s[%s]' % (ctx.func.qname, short)
         rep.functions.add(ctx.func.qname)
-        rets = [n for n in g.of_kind('stmt')
-                if isinstance(n.ast, ast.Return) and
-                n.frame is g.entry.frame and fx.at(n) is not None]
+        live = dataflow.reachable(g)
+
+        def final_returns(frame, depth=0):
+            """return statements that decide what the root returns: a
+            `return helper(...)` of an inlined helper is decided by the
+            helper's own returns"""
+            out = []
+            for n in g.of_kind('stmt'):
+                if not isinstance(n.ast, ast.Return) or \
+                        n.frame is not frame or n.id not in live or \
+                        fx.at(n) is None:
+                    continue
+                v = n.ast.value
+                kids = [c for c in frame.children if c.call is v] \
+                    if isinstance(v, ast.Call) else []
+                if kids and depth < 4:
+                    for c in kids:
+                        out += final_returns(c, depth + 1)
+                else:
+                    out.append(n)
+            return out
+        rets = final_returns(g.entry.frame)
         if not rets:
             rep.error('anchor vanished: return in %s' % where)
         for n in rets:
@@ -488,7 +507,10 @@ def n3(e: Engine, rep: Report, K: Kinds):
             st = fx.at(n) or frozenset()
             ok = any(('.returncode' in k) and
                      ((not p and k.endswith(' != 0')) or
-                      (p and k.endswith(' == 0'))) for p, k in st)
+                      (p and k.endswith(' == 0')) or
+                      # `not p.returncode` / `if p.returncode: ...`
+                      (not p and k.endswith('.returncode')))
+                     for p, k in st)
             w = None
             if not ok:
                 pth = dataflow.find_path(g, g.entry, lambda x: x is n)
@@ -768,13 +790,68 @@ def n7(e: Engine, rep: Report, rule: str):
                     start=body[0])
                 if miss is None:
                     good.append(lp)
-            if not good:
+            # the same fill written as one expression:
+            #   rv.update((r, ...) for r in <missing>) / rv.update({r: ...})
+            # where <missing> ranges over the recipients that have no entry
+            fn = ctx.func.node
+            rv_name = r.ast.value.id
+
+            def over_recipients(it, depth=0):
+                if 'recipients' in ast.unparse(it) and not isinstance(
+                        it, (ast.ListComp, ast.GeneratorExp)):
+                    return True
+                if isinstance(it, (ast.ListComp, ast.GeneratorExp)) and \
+                        len(it.generators) == 1 and \
+                        isinstance(it.elt, ast.Name) and \
+                        isinstance(it.generators[0].target, ast.Name) and \
+                        it.elt.id == it.generators[0].target.id:
+                    gnr = it.generators[0]
+                    only_missing = all(
+                        isinstance(c, ast.Compare) and len(c.ops) == 1 and
+                        isinstance(c.ops[0], ast.NotIn) and
+                        ast.unparse(c.comparators[0]) == rv_name
+                        for c in gnr.ifs)
+                    return only_missing and over_recipients(gnr.iter,
+                                                            depth + 1)
+                if isinstance(it, ast.Name) and depth < 3:
+                    defs = [a.value for a in walk_own(fn)
+                            if isinstance(a, ast.Assign) and any(
+                                isinstance(t, ast.Name) and t.id == it.id
+                                for t in a.targets)]
+                    return len(defs) == 1 and over_recipients(defs[0],
+                                                              depth + 1)
+                return False
+
+            def bulk_fill(n):
+                if n.kind != 'call' or e.call_name(n) != 'update' or \
+                        not isinstance(n.ast.func, ast.Attribute) or \
+                        path_of(n.ast.func.value, n.frame) != rv or \
+                        len(n.ast.args) != 1:
+                    return False
+                a = n.ast.args[0]
+                if isinstance(a, (ast.GeneratorExp, ast.ListComp)) and \
+                        len(a.generators) == 1 and \
+                        isinstance(a.elt, ast.Tuple) and a.elt.elts and \
+                        isinstance(a.generators[0].target, ast.Name) and \
+                        isinstance(a.elt.elts[0], ast.Name) and \
+                        a.elt.elts[0].id == a.generators[0].target.id:
+                    return over_recipients(a.generators[0].iter)
+                if isinstance(a, ast.DictComp) and len(a.generators) == 1 \
+                        and isinstance(a.key, ast.Name) and \
+                        isinstance(a.generators[0].target, ast.Name) and \
+                        a.key.id == a.generators[0].target.id:
+                    return over_recipients(a.generators[0].iter)
+                return False
+            bulk = [n for n in g.nodes if bulk_fill(n)]
+            if not good and not bulk:
                 continue
             found += 1
             rep.evaluations += 1
 
             def tstep(n, label, st):
                 if n in good and label == 'done':
+                    return True
+                if n in bulk and not isinstance(label, tuple):
                     return True
                 return st
             pth = dataflow.typestate_witness(
